@@ -225,7 +225,12 @@ func (p *Path) OK() bool {
 	if p.Panic || len(p.Ret) == 0 {
 		return !p.Panic
 	}
-	return p.Ret[len(p.Ret)-1].IsNil()
+	last := p.Ret[len(p.Ret)-1]
+	if last.IsNil() {
+		return true
+	}
+	// an error value the path has established to be nil
+	return p.factIs(len(p.Events), "("+last.String()+" == nil)", true)
 }
 
 func (p *Path) Find(pred func(*Event) bool) []int {
